@@ -125,7 +125,20 @@ S9 = Scenario(
     depth={"quick": 2, "thorough": 3},
     note="definition reshaped after it was instanced (pin added to a non-last port, ports reordered), then re-pointed")
 
-INSTANCE_SCENARIOS = [S2, S4, S5, S6, S7, S9]
+def _valid_proxies(w):
+    return [p for p in _valid_proxies_plus_one(w)][:-1] if _valid_proxies_plus_one(w) else []
+
+
+S12 = Scenario(
+    "S12-pins-across-a-repoint", seeds.seed_repoint,
+    ["instance.reference=", "wire.disconnect_pins_from", "wire.disconnect_pins_from.set", "wire.disconnect_pins_from.held",
+     "wire.connect_pin", "wire.disconnect_pin", "wire.pins="],
+    limits={"positions": (None,), "names": (None,), "bulk_max": 2, "proxy_pairs": _valid_proxies_plus_one, "odd_bulk": False},
+    depth={"quick": 2, "thorough": 3},
+    note="stored outer pins (hashed at seed time: the caller holds a set of them), proxies and bulk disconnects on both "
+         "sides of a re-point: an outer pin is the same object before and after, its (instance, inner pin) key is not")
+
+INSTANCE_SCENARIOS = [S2, S4, S5, S6, S7, S9, S12]
 
 # ---------------------------------------------------------------- naming scopes (C10, C14)
 _SCOPE = {
@@ -190,5 +203,5 @@ S11 = Scenario(
     depth={"quick": 2, "thorough": 3},
     note="two netlists referencing each other's definitions: cross-netlist moves, re-points and top changes")
 
-STRUCTURAL += [S10, S11, S9]
+STRUCTURAL += [S10, S11, S9, S12]
 INSTANCE_SCENARIOS += [S11]
